@@ -23,7 +23,7 @@ fn piece(b: &[u8], exclude_known: bool) -> Piece {
     let doc = match g(20) % 4 {
         0 => None,
         1 => Some((0..1 + g(21) % 3).map(|j| DOC_LINES[g(22 + j) % DOC_LINES.len()].to_string()).collect()),
-        2 => Some(vec!["\n * block doc\n * second line\n ".to_string()]),
+        2 => Some(vec![RAW_BLOCK_DOCS[g(25) % RAW_BLOCK_DOCS.len()].to_string()]),
         _ => None,
     };
     Piece { name: NAMES[g(0) % NAMES.len()].to_string(), generics: GENERICS[g(1) % GENERICS.len()].to_string(), imports: imports.into_iter().collect(), doc, body: BODIES[g(26) % BODIES.len()].to_string() }
